@@ -379,3 +379,88 @@ Theorem C14_wrap_empty_cex :
                    [SField cx_z None "a" [] [] (cx_z, cx_z) [wx_wrap []]])] = true.
 Proof. exact wrap_empty_cex. Qed.
 Print Assumptions C14_wrap_empty_cex.
+
+(* C14_additions3.v — to be appended to properties/C14.v.  Needs, next to the imports of C14.v:
+From GTP Require Import C14_inline_proofs.
+From GTP Require C06_graph_proofs C05_frag_annot.
+   (_CoqProject: proofs/C14_inline_proofs.v after proofs/C14_wrap_proofs.v; it depends on C14_proofs,
+    C14_more_proofs, C14_wrap_proofs, C06_graph_proofs, C05_merge_proofs, C05_frag_spec, C05_frag_annot,
+    C05_frag_global, all of which precede it already) *)
+From GT Require Import Visitor Validate.
+From Coq Require Import Permutation.
+From GTS Require Import Annot WfSchema SpecRules SpecValid.
+From GTP Require Import C14_proofs C14_more_proofs C14_wrap_proofs C14_inline_proofs.
+From GTP Require C06_graph_proofs C05_frag_annot.
+
+(* ---- (f) a spread replaced by the typed inline fragment: [inline_doc F d d'] = d' is d with some (any number)
+   of the spreads `...F` WITHOUT directives replaced by `... on T { selections of F }` (T = fr_tc F; the span
+   of the new selection set is F's, its position is free), anywhere; the definition of F stays.
+   [inline_side F d] = F is a definition of d, the only one named so, has no directives of its own and is not
+   on a cycle of the spread graph (C06_graph_proofs.cyc).
+   [inline_merge_side F s d] = T is a type of s and so are the type conditions of the inline fragments of d
+   (C05_frag_annot.inline_conditions_known): needed for field merging only. *)
+Theorem C14_spec_inline : forall F r s d d', inline_doc F d d' -> inline_side F d ->
+  r <> R_OverlappingFieldsCanBeMerged -> r <> R_NoUnusedFragments ->
+  violated r s d = violated r s d'.
+Proof. exact violated_inline. Qed.
+Print Assumptions C14_spec_inline.
+
+Theorem C14_spec_inline_merge : forall F s d d', inline_doc F d d' -> inline_side F d -> inline_merge_side F s d ->
+  violated R_OverlappingFieldsCanBeMerged s d = violated R_OverlappingFieldsCanBeMerged s d'.
+Proof. exact violated_inline_merge. Qed.
+Print Assumptions C14_spec_inline_merge.
+
+(* NoUnusedFragments: an unused fragment stays unused; only F itself can become unused *)
+Theorem C14_spec_inline_no_unused_fragments : forall F s d d', inline_doc F d d' -> inline_side F d ->
+  (violated R_NoUnusedFragments s d = true -> violated R_NoUnusedFragments s d' = true) /\
+  (In (fr_name F) (reachable_from_operations d') ->
+   violated R_NoUnusedFragments s d = violated R_NoUnusedFragments s d').
+Proof. exact violated_inline_no_unused_fragments. Qed.
+Print Assumptions C14_spec_inline_no_unused_fragments.
+
+(* accept / reject *)
+Theorem C14_spec_valid_inline : forall F s d d', inline_doc F d d' -> inline_side F d -> inline_merge_side F s d ->
+  In (fr_name F) (reachable_from_operations d') ->
+  spec_valid s d = spec_valid s d'.
+Proof. exact spec_valid_inline. Qed.
+Print Assumptions C14_spec_valid_inline.
+
+Theorem C14_spec_valid_inline_mono : forall F s d d', inline_doc F d d' -> inline_side F d -> inline_merge_side F s d ->
+  spec_valid s d' = true -> spec_valid s d = true.
+Proof. exact spec_valid_inline_mono. Qed.
+Print Assumptions C14_spec_valid_inline_mono.
+
+(* the relation is not degenerate; the hypotheses are needed *)
+Theorem C14_inline_example :
+  let d := [ix_q "Q" [] [ix_sub "t" [ix_spread "F"]]; ix_q "R" [] [ix_sub "t" [ix_spread "F"]]; DFrag ix_F] in
+  let d' := [ix_q "Q" [] [ix_sub "t" [ix_copy ix_F]]; ix_q "R" [] [ix_sub "t" [ix_spread "F"]]; DFrag ix_F] in
+  inline_doc ix_F d d' /\ spec_valid cx_schema d = true /\ spec_valid cx_schema d' = true.
+Proof. exact inline_example. Qed.
+Print Assumptions C14_inline_example.
+
+Theorem C14_inline_unused_cex :
+  let d := [ix_q "Q" [] [ix_sub "t" [ix_spread "F"]]; DFrag ix_F] in
+  let d' := [ix_q "Q" [] [ix_sub "t" [ix_copy ix_F]]; DFrag ix_F] in
+  inline_doc ix_F d d' /\ spec_valid cx_schema d = true /\ spec_valid cx_schema d' = false /\
+  violated R_NoUnusedFragments cx_schema d' = true.
+Proof. exact inline_unused_cex. Qed.
+Print Assumptions C14_inline_unused_cex.
+
+Theorem C14_inline_fragment_directives_cex :
+  let d := [ix_q "Q" [ix_v] [ix_sub "t" [ix_spread "F"]]; ix_q "R" [ix_v] [ix_sub "t" [ix_spread "F"]]; DFrag ix_Fd] in
+  let d' := [ix_q "Q" [ix_v] [ix_sub "t" [ix_copy ix_Fd]]; ix_q "R" [ix_v] [ix_sub "t" [ix_spread "F"]]; DFrag ix_Fd] in
+  inline_doc ix_Fd d d' /\
+  violated R_NoUnusedVariables cx_schema d = false /\ violated R_NoUnusedVariables cx_schema d' = true.
+Proof. exact inline_fragment_directives_cex. Qed.
+Print Assumptions C14_inline_fragment_directives_cex.
+
+(* T not a type of the schema (schema of the example not well-formed) *)
+Theorem C14_inline_undeclared_type_cex :
+  let l := [SInline cx_z (Some "O") [] (cx_z, cx_z) [cx_field "a"]] in
+  let d := [ix_q "Q" [] [ix_sub "t" (ix_spread "F" :: l)]; ix_q "R" [] [ix_sub "t" [ix_spread "F"]]; DFrag ix_Fi] in
+  let d' := [ix_q "Q" [] [ix_sub "t" (ix_copy ix_Fi :: l)]; ix_q "R" [] [ix_sub "t" [ix_spread "F"]]; DFrag ix_Fi] in
+  inline_doc ix_Fi d d' /\ type_by_name ix_schemaI "__Type" = None /\
+  spec_valid ix_schemaI d = true /\ spec_valid ix_schemaI d' = false /\
+  violated R_OverlappingFieldsCanBeMerged ix_schemaI d' = true.
+Proof. exact inline_undeclared_type_cex. Qed.
+Print Assumptions C14_inline_undeclared_type_cex.
